@@ -8,7 +8,7 @@ total.  Relational driver: translation equivariance, zero extent == identity, ph
 """
 import numpy as np
 
-from vp import probe
+from vp import gen, probe
 
 RULE = ('seeded generator: non-negative images 1..40 per side of any aspect ratio (odd/even/non-square), smooth (sums of '
         'Gaussians) and spiky, blur extents 0..10 samples, all angles, pixel scales and oversampling 1..6, circular '
@@ -163,7 +163,7 @@ def workload(ctx, lentil):
         ctx.case(desc, bks, nontrivial=img.size > 1 and not zero)
         try:
             with np.errstate(all='ignore'):
-                out = call(img)                                  # online oracle decides
+                out = call(gen.layout(rng, img))                 # online oracle decides (image in any memory layout)
         except Exception:
             continue
         sc_ = max(float(np.max(np.abs(out))), 1e-300)
